@@ -126,8 +126,8 @@ theorem onAppendEntries_pend (n : Node) (r : AeReq) : PendRel n (onAppendEntries
   · next hr =>
     split
     · exact pendRel_refl n
-    · have hb := becomeFollower_lists n (by simp [hr])
-      have hl := followerAppend_lists (becomeFollower n) r
+    · have hb := becomeFollower_lists { n with term := r.term } (by simp [hr])
+      have hl := followerAppend_lists (becomeFollower { n with term := r.term }) r
       exact Or.inl ⟨by rw [hl.1, hb.1], by rw [hl.2, hb.2]⟩
 
 theorem stepDown_lists (n : Node) (t : Nat) (hr : n.role = .leader) :
